@@ -3,7 +3,7 @@
 Require Import List ZArith Bool.
 Require Import IVP.model.Lit IVP.model.Ops IVP.model.Vec IVP.model.Common IVP.model.SolOut
                IVP.gen.Inline.
-Require IVP.model.Dopri5 IVP.model.Rk23 IVP.model.Rk4 IVP.model.Dop853.
+Require IVP.model.Dopri5 IVP.model.Rk23 IVP.model.Rk4 IVP.model.Dop853 IVP.model.Radau IVP.model.Matrix.
 Import ListNotations.
 Local Open Scope bool_scope.
 
@@ -23,14 +23,38 @@ Section Solve.
     o_t_eval : option (list F); o_first_step : option F; o_max_step : option F;
     o_min_step : option F; o_dense : bool;
     o_defaults : list F;      (* the builder defaults of the chosen method, read from the implementation *)
-    o_nstiff : N
+    o_nstiff : N;             (* explicit: stiff_test interval; implicit: newton_maxiter *)
+    o_jac_storage : Matrix.storage; o_mass_storage : Matrix.storage
   }.
   Definition dflt (opt : options) (i : nat) : F := nth i (o_defaults opt) (zero O).
 
   Record problem := mkPr {
     pr_f : F -> vec -> vec;
-    pr_events : F -> vec -> vec; pr_nevents : nat; pr_evcfg : list event_config
+    pr_events : F -> vec -> vec; pr_nevents : nat; pr_evcfg : list event_config;
+    pr_jac : option (F -> vec -> list vec);     (* user Jacobian, rows; None = trait default (finite differences) *)
+    pr_mass : option (list vec)                 (* user mass matrix, rows; None = trait default (identity) *)
   }.
+
+  (* what `jac[(r,c)]` / `mass[(r,c)]` read after the user callback filled a matrix of the given storage *)
+  Definition stored (st : Matrix.storage) (rows : list vec) (ident : bool) : nat -> nat -> F :=
+    fun r c =>
+      match st with
+      | Matrix.SIdentity => if Nat.eqb r c then one O else zero O
+      | Matrix.SFull => if ident then (if Nat.eqb r c then one O else zero O) else nth c (nth r rows []) (zero O)
+      | Matrix.SBanded ml mu =>
+          if Matrix.in_band ml mu r c then
+            (if ident then (if Nat.eqb r c then one O else zero O) else nth c (nth r rows []) (zero O))
+          else zero O
+      end.
+  Definition mass_of (P : problem) (st : Matrix.storage) : nat -> nat -> F :=
+    match pr_mass P with Some rows => stored st rows false | None => stored st [] true end.
+
+  (* the Jacobian the solver sees, and the right-hand-side evaluations computing it costs *)
+  Definition jac_of (P : problem) (st : Matrix.storage) (n : nat) (x : F) (y : vec) : nat -> nat -> F :=
+    match pr_jac P with
+    | Some j => stored st (j x y) false
+    | None => Radau.fd_jac O (pr_f P) n x y
+    end.
 
   Record solution := mkSol {
     sol_t : list F; sol_y : list vec;                 (* oldest first *)
@@ -38,6 +62,7 @@ Section Solve.
     sol_stats : stats; sol_status : status;
     sol_segs : option (list (seg (F:=F)));            (* oldest first; None = dense disabled *)
     sol_odelog : list (F * vec); sol_evlog : list (F * vec);   (* ghost, oldest first *)
+    sol_jaclog : list (F * vec);
     sol_unconverged : N;
     sol_hfinal : F
   }.
@@ -55,6 +80,7 @@ Section Solve.
     | MRK4 => Rk4.interpolate O
     | MRK23 => Rk23.interpolate O
     | MDOP853 => Dop853.interpolate O
+    | MRADAU => Radau.interpolate O
     | _ => Dopri5.interpolate O
     end.
 
@@ -74,7 +100,7 @@ Section Solve.
     let '(hs', fl) := solout O C hs xold x y sg in (hs', fl, y).
 
   Definition trivial_solution (P : problem) (t : list F) (y : list vec) (segs : option (list seg)) : solution :=
-    mkSol t y (repeat [] (pr_nevents P)) (repeat [] (pr_nevents P)) stats0 Success segs [] [] 0 (zero O).
+    mkSol t y (repeat [] (pr_nevents P)) (repeat [] (pr_nevents P)) stats0 Success segs [] [] [] 0 (zero O).
 
   Definition solve_ivp (P : problem) (x0 xend : F) (y0 : vec) (opt : options) (fuel : nat)
     : option solution :=
@@ -105,7 +131,7 @@ Section Solve.
                                  (o_max_step opt) (o_first_step opt) nmax (o_nstiff opt) true in
             match Dopri5.solve O Pm (pr_f P) x0 y0 xend (o_rtol opt) (o_atol opt)
                                (handler_cb C) (hs_init O C) fuel with
-            | Some r => Some (Dopri5.r_status r, Dopri5.r_stats r, Dopri5.r_log r, Dopri5.r_cb r, Dopri5.r_h r)
+            | Some r => Some (Dopri5.r_status r, Dopri5.r_stats r, Dopri5.r_log r, Dopri5.r_cb r, Dopri5.r_h r, [])
             | None => None
             end
         | MDOP853 =>
@@ -113,7 +139,7 @@ Section Solve.
                                  (o_max_step opt) (o_first_step opt) nmax (o_nstiff opt) true in
             match Dop853.solve O Pm (pr_f P) x0 y0 xend (o_rtol opt) (o_atol opt)
                                (handler_cb C) (hs_init O C) fuel with
-            | Some r => Some (Dop853.r_status r, Dop853.r_stats r, Dop853.r_log r, Dop853.r_cb r, Dop853.r_h r)
+            | Some r => Some (Dop853.r_status r, Dop853.r_stats r, Dop853.r_log r, Dop853.r_cb r, Dop853.r_h r, [])
             | None => None
             end
         | MRK23 =>
@@ -122,24 +148,35 @@ Section Solve.
                                (o_max_step opt) (o_first_step opt) nmax true in
             match Rk23.solve O Pm (pr_f P) x0 y0 xend (o_rtol opt) (o_atol opt)
                              (handler_cb C) (hs_init O C) fuel with
-            | Some r => Some (Rk23.r_status r, Rk23.r_stats r, Rk23.r_log r, Rk23.r_cb r, Rk23.r_h r)
+            | Some r => Some (Rk23.r_status r, Rk23.r_stats r, Rk23.r_log r, Rk23.r_cb r, Rk23.r_h r, [])
             | None => None
             end
         | MRK4 =>
             let h := match o_first_step opt with Some h0 => h0 | None => (xend - x0) / L L100 end in
             match Rk4.solve O (Rk4.mkP nmax true) (pr_f P) x0 y0 xend h
                             (handler_cb C) (hs_init O C) fuel with
-            | Some r => Some (Rk4.r_status r, Rk4.r_stats r, Rk4.r_log r, Rk4.r_cb r, Rk4.r_h r)
+            | Some r => Some (Rk4.r_status r, Rk4.r_stats r, Rk4.r_log r, Rk4.r_cb r, Rk4.r_h r, [])
+            | None => None
+            end
+        | MRADAU =>
+            (* defaults: uround, safety_factor, scale_min, scale_max; o_nstiff = newton_maxiter *)
+            let Pm := Radau.mkP nmax (dflt opt 0) (dflt opt 1) (dflt opt 2) (dflt opt 3)
+                                (o_max_step opt) (o_min_step opt) (N.to_nat (o_nstiff opt)) None true
+                                (o_first_step opt) true in
+            let n := length y0 in
+            match Radau.solve O Pm (pr_f P) (jac_of P (o_jac_storage opt) n) (mass_of P (o_mass_storage opt))
+                              x0 y0 xend (o_rtol opt) (o_atol opt) (handler_cb C) (hs_init O C) fuel with
+            | Some r => Some (Radau.r_status r, Radau.r_stats r, Radau.r_log r, Radau.r_cb r, Radau.r_h r, Radau.r_jaclog r)
             | None => None
             end
         | _ => None
         end in
       match res with
       | None => None
-      | Some (st, stats, log, hs, hfin) =>
+      | Some (st, stats, log, hs, hfin, jl) =>
           Some (mkSol (frev (hs_t hs)) (frev (hs_y hs)) (map frev (hs_tev hs)) (map frev (hs_yev hs))
                       stats st (if o_dense opt then Some (frev (hs_segs hs)) else None)
-                      (frev log) (frev (hs_evlog hs)) (hs_brent_unconverged hs) hfin)
+                      (frev log) (frev (hs_evlog hs)) (frev jl) (hs_brent_unconverged hs) hfin)
       end.
 
   (* ---------------- dense evaluation ---------------- *)
